@@ -4,7 +4,7 @@
     unbounded and bounded request queue - against the clauses of C14 (NoRequestBeforeFirstLease, CountWithinGrant, NoneAfterTtl,
     FifoOnce, Accounted, RetainedUpToQueueSize, NothingWaitsUnderUsableLease).
 (B) spec -> code: the complete state graphs are dumped and EVERY transition is replayed on a real RSocketClient(honor_lease=True)
-    under a virtual clock: requests through the public request_response / fire_and_forget / request_stream API, LEASE frames
+    under a virtual clock: requests through the public request_response / fire_and_forget / request_stream / request_channel API, LEASE frames
     through the real handle_lease coroutine, time through the patched `datetime` of rsocket.lease.  After every step the frames in
     the send queue, the frames held back in the request queue and the refused calls are compared with the specification state.
 """
@@ -88,14 +88,14 @@ class RealLease:
         self.made.append(rid)
         try:
             with _running():
-                k = rid % 3
+                k = rid % 4
                 if k == 0:
                     self.keep.append(self.client.request_response(p))
                 elif k == 1:
                     self.keep.append(self.client.fire_and_forget(p))
                 else:
                     from reactivestreams.subscriber import DefaultSubscriber
-                    pub = self.client.request_stream(p).initial_request_n(3)
+                    pub = (self.client.request_stream(p) if k == 2 else self.client.request_channel(p)).initial_request_n(3)
                     pub.subscribe(DefaultSubscriber())
                     self.keep.append(pub)
         except asyncio.QueueFull:
